@@ -55,7 +55,9 @@ theorem cvB_divBy (b : Lin.Bounds α) (c : α) : cvB (Lin.Bounds.divBy b c) = Ro
   simp only [Lin.Bounds.divBy, Rooc.Bounds.divBy]
   by_cases h1 : Arith.eq c (Arith.zero : α) = true
   · simp [h1]; rfl
-  · simp only [h1, Bool.false_eq_true, if_false]; exact cvB_scale _ _
+  · by_cases h2 : Arith.gt c (Arith.zero : α) = true
+    · simp [h1, h2, cvB]
+    · simp [h1, h2, cvB]
 
 theorem cvB_add (a b : Lin.Bounds α) : cvB (Lin.Bounds.add a b) = Rooc.Bounds.add (cvB a) (cvB b) := rfl
 theorem cvB_neg (a : Lin.Bounds α) : cvB (Lin.Bounds.neg a) = Rooc.Bounds.neg (cvB a) := rfl
